@@ -69,6 +69,9 @@ FUNCS = [
     ("src/group.c", "rdsparser_group_parse", "m_group_parse", []),
     ("src/group0.c", "rdsparser_group0_parse", "m_group0_parse", []),
     ("src/group10.c", "rdsparser_group10_parse", "m_group10_parse", []),
+    ("src/ecc.c", "rdsparser_ecc_lookup", "m_ecc_lookup", []),
+    ("src/group1.c", "rdsparser_group1_parse", "m_group1_parse", []),
+    ("src/group4.c", "rdsparser_group4_parse", "m_group4_parse", []),
     ("src/string.c", "rdsparser_string_convert", "m_string_convert_n", ["-DRDSPARSER_DISABLE_UNICODE"]),
     ("src/string.c", "rdsparser_string_update_single", "m_update_single_n", ["-DRDSPARSER_DISABLE_UNICODE"]),
 ]
@@ -89,9 +92,15 @@ for _c, _q in [("rdsparser_group_get_pi", "c_get_pi"), ("rdsparser_group_get_pty
                ("rdsparser_group1a0_get_ecc", "c_get_ecc"), ("rdsparser_group2_get_rt_pos", "c_get_rt_pos"),
                ("rdsparser_group2_get_rt_flag", "c_get_rt_flag"), ("rdsparser_group10a_get_ptyn_pos", "c_get_ptyn_pos")]:
     LEAF_REG[_c] = (_q, [], [], list(_D4), [], False)
+for _c, _q in [("rdsparser_group4a_get_mjd", "c_get_mjd"), ("rdsparser_group4a_get_hour", "c_get_hour"),
+               ("rdsparser_group4a_get_minute", "c_get_minute"), ("rdsparser_group4a_get_time_offset", "c_get_offset")]:
+    LEAF_REG[_c] = (_q, [], [], list(_D4), [], False)
+# rdsparser_ct_init(ct, mjd, hour, minute, offset): result, then the fields of *ct in declaration order
+LEAF_REG["rdsparser_ct_init"] = ("c_ct_init", [("ct", "")], [], ["mjd", "hour", "minute", "offset"],
+                                 ["year", "month", "day", "hour", "minute", "offset"], False)
 # every other source file a call may lead into
 ALL_SOURCES = ["src/af.c", "src/buffer.c", "src/string.c", "src/parser.c", "src/rdsparser.c", "src/group.c",
-               "src/group0.c", "src/group10.c"]
+               "src/group0.c", "src/group10.c", "src/ecc.c", "src/group1.c", "src/group4.c", "src/ct.c"]
 # a call through a callback member appends [code; callback; arguments...] to the pseudo-member
 # `events` (the parser pointer itself is not recorded); codes = the model's field_idx
 CALLBACK_CODES = {"callback_pi": 0, "callback_pty": 1, "callback_tp": 2, "callback_ta": 3, "callback_ms": 4,
@@ -134,6 +143,11 @@ class Shared:
         self.inputs = []      # member paths read before being written (function inputs)
         self.written = set()  # member paths written
         self.kinds = {}       # member path -> 1 (list) / 2 (list of lists), from the way it is used
+        self.locals = set()   # prefixes of local struct variables (never inputs / outputs)
+        self.garrs = {}       # file-scope constant tables used: name -> nested python list
+        self.records = {}     # record name -> field names in declaration order
+        self.gtables = {}     # all file-scope constant tables seen
+        self.local_rec = {}   # local struct prefix -> record name
         self.depth = 0
 
     def fresh(self, base):
@@ -166,6 +180,8 @@ class Ctx:
         return v
 
     def rd(self, path):
+        if path not in self.mem and any(path.startswith(l) for l in self.sh.locals):
+            return "0"            # an uninitialised member of a local struct: indeterminate, never used by correct code
         if path not in self.mem:
             if path not in self.sh.inputs:
                 self.sh.inputs.append(path)
@@ -176,7 +192,8 @@ class Ctx:
     def wr(self, path, term):
         self.sh.count.setdefault(path, 1)
         self.mem[path] = self.let(path, term)
-        self.sh.written.add(path)
+        if not any(path.startswith(l) for l in self.sh.locals):
+            self.sh.written.add(path)
 
 
 def const_value(node, ctx):
@@ -351,6 +368,28 @@ def expr(node, ctx):
             return lit(ctx.sh.enums[rd["name"]])
         return read(node, ctx)
     if k in ("MemberExpr", "ArraySubscriptExpr"):
+        # a file-scope constant table: g[i] or g[i][j]
+        if k == "ArraySubscriptExpr":
+            idxs = []
+            b = node
+            while b["kind"] == "ArraySubscriptExpr":
+                idxs.append(b["inner"][1])
+                b = strip(b["inner"][0])
+            if b["kind"] == "DeclRefExpr" and b["referencedDecl"]["name"] in ctx.sh.gtables \
+                    and b["referencedDecl"]["name"] not in ctx.arrs and b["referencedDecl"]["name"] not in ctx.env:
+                gname = b["referencedDecl"]["name"]
+                if gname not in ctx.sh.garrs:
+                    def ev(n):
+                        if n["kind"] == "InitListExpr":
+                            return [ev(x) for x in n["inner"]]
+                        return const_value(n, ctx)
+                    ctx.sh.garrs[gname] = ev(ctx.sh.gtables[gname])
+                idxs = list(reversed(idxs))
+                if len(idxs) == 1:
+                    return "(nth (Z.to_nat %s) g_%s 0)" % (expr(idxs[0], ctx), gname)
+                if len(idxs) == 2:
+                    return "(nth (Z.to_nat %s) (nth (Z.to_nat %s) g_%s []) 0)" % (expr(idxs[1], ctx), expr(idxs[0], ctx), gname)
+                raise Unsupported("table with more than two dimensions")
         # two-dimensional member: a[i][j]
         if k == "ArraySubscriptExpr":
             base = strip(node["inner"][0])
@@ -414,6 +453,8 @@ def pointer_arg(a, ctx):
         b = strip(b["inner"][0])
         if b["kind"] == "MemberExpr":
             return ("struct", member_path(b, ctx) + "__")
+        if b["kind"] == "DeclRefExpr" and ctx.ptrs.get(b["referencedDecl"]["name"], ("", ""))[0] == "struct":
+            return ctx.ptrs[b["referencedDecl"]["name"]]
         raise Unsupported("address of something that is not a member")
     if b["kind"] == "DeclRefExpr":
         name = b["referencedDecl"]["name"]
@@ -481,7 +522,8 @@ def call_by_name(reg, fn, args, ctx):
     ctx.lines.append("let '(%s) := %s in" % (", ".join(names), app))
     for q, n in zip(outs, names[1:]):
         ctx.mem[to_caller(q)] = n
-        ctx.sh.written.add(to_caller(q))
+        if not any(to_caller(q).startswith(l) for l in ctx.sh.locals):
+            ctx.sh.written.add(to_caller(q))
     return None if void else names[0]
 
 
@@ -501,6 +543,12 @@ def call(node, ctx):
             b = strip(a)
             if b["kind"] == "DeclRefExpr" and b["referencedDecl"]["name"] in ctx.ptrs:
                 continue            # the parser itself
+            if b["kind"] == "UnaryOperator" and b["opcode"] == "&":
+                kind, pre = pointer_arg(a, ctx)
+                if pre in ctx.sh.local_rec:
+                    # a pointer to a local struct: the callback sees its members
+                    vals += [ctx.rd(pre + f) for f in ctx.sh.records[ctx.sh.local_rec[pre]]]
+                    continue
             vals.append(expr(a, ctx))
         ctx.sh.kinds["events"] = 2
         ctx.wr("events", "(%s ++ [[%s]])" % (ctx.rd("events"), "; ".join([str(code), ctx.rd(path)] + vals)))
@@ -637,6 +685,14 @@ def decl(d, ctx):
             ctx.arrs[name] = vals
             return
         raise Unsupported("array initialiser")
+    rec = q.replace("const ", "").replace("struct ", "").strip()
+    if rec.endswith("_t") and rec[:-2] in ctx.sh.records:
+        rec = rec[:-2]
+    if init is None and rec in ctx.sh.records:
+        ctx.ptrs[name] = ("struct", name + "__")
+        ctx.sh.locals.add(name + "__")
+        ctx.sh.local_rec[name + "__"] = rec
+        return
     if "*" in q:
         c = strip(init) if init else None
         if c and c["kind"] == "CallExpr":
@@ -649,6 +705,12 @@ def decl(d, ctx):
                 if what[0] == "str":
                     ctx.ptrs[name] = ("alias", what[1] + STRING_ACCESSORS[fname])
                     return
+        if init is not None:
+            # a local pointer to a sub-object (T *p = &s->a.b;) is another name for it
+            what = pointer_arg(init, ctx)
+            if what[0] in ("struct", "str"):
+                ctx.ptrs[name] = what
+                return
         raise Unsupported("pointer variable %s" % name)
     if init is None:
         ctx.env.pop(name, None)
@@ -804,9 +866,16 @@ def stmts(nodes, ctx, outs, void=False):
 
 
 # ---------------------------------------------------------------- driver
-def collect(tu, enums, funcs, dims):
+def collect(tu, enums, funcs, dims, records=None, gtables=None):
+    for n in tu.get("inner", []):
+        if gtables is not None and n.get("kind") == "VarDecl" and n.get("inner") and n["inner"][0].get("kind") == "InitListExpr" \
+                and "const" in n.get("type", {}).get("qualType", ""):
+            gtables[n["name"]] = n["inner"][0]
+
     def walk(n):
         k = n.get("kind")
+        if records is not None and k == "RecordDecl" and n.get("name") and n.get("completeDefinition"):
+            records[n["name"]] = [c["name"] for c in n.get("inner", []) if c.get("kind") == "FieldDecl"]
         if k == "EnumDecl":
             nxt = 0
             for c in n.get("inner", []):
@@ -894,20 +963,21 @@ def main():
     errors = []
     cache = {}
     regs = {}
+    emitted_tables = set()
     status = {"translated": [], "unsupported": {}}
     kinds_of = {"c_af_get": {"buffer": 1}, "c_af_set": {"buffer": 1}}
     for src, cname, coqname, defs in FUNCS:
         try:
             key = tuple(defs)
             if key not in cache:
-                enums, funcs, dims = {}, {}, {}
+                enums, funcs, dims, records, gtables = {}, {}, {}, {}, {}
                 for s in ALL_SOURCES:
                     try:
-                        collect(load_ast(repo, s, defs), enums, funcs, dims)
+                        collect(load_ast(repo, s, defs), enums, funcs, dims, records, gtables)
                     except Unsupported:
                         pass          # functions that need this file will be reported one by one
-                cache[key] = (enums, funcs, dims)
-            enums, funcs, dims = cache[key]
+                cache[key] = (enums, funcs, dims, records, gtables)
+            enums, funcs, dims, records, gtables = cache[key]
             # the function of THIS file wins over a static namesake elsewhere
             own = {}
             collect(load_ast(repo, src, defs), {}, own, {})
@@ -917,7 +987,16 @@ def main():
                 raise Unsupported("function %s not found in %s" % (cname, src))
             reg = regs.setdefault(key, dict(LEAF_REG))
             sh = Shared(enums, fs, dims, "_n" if defs else "", reg, kinds_of)
+            sh.records, sh.gtables = records, gtables
             ins, scal, outs, term, ptrs, void = translate(fs[cname], sh)
+            for gname, val in sh.garrs.items():
+                if gname not in emitted_tables:
+                    emitted_tables.add(gname)
+
+                    def show(v):
+                        return "[" + "; ".join(show(x) for x in v) + "]" if isinstance(v, list) else lit(v)
+                    ty = "list (list Z)" if val and isinstance(val[0], list) else "list Z"
+                    text += "(* file-scope constant table %s *)\nDefinition g_%s : %s :=\n  %s.\n\n" % (gname, gname, ty, show(val))
             reg[cname] = (coqname, ptrs, ins, scal, outs, void)
             kinds_of[coqname] = {q: sh.kinds[q] for q in ins + outs if q in sh.kinds}
             binders = " ".join("(%s : %s)" % (x, kind_of(x, sh.kinds)) for x in ins) + " " + \
